@@ -40,6 +40,11 @@ ASSUMPTIONS = [
     "interpolation are exact up to the final correctly-rounded division: mean and quantiles are compared exactly "
     "(mean: nearest double of the exact rational), std through exact fractions with relative tolerance 1e-12 on the variance",
     "category values are shipped to Coq as their rank in the Python-sorted list of the column's distinct values",
+    "the count clause is checked, not predicted: there is no model of pandas value_counts; the proved checker "
+    "valid_count_order is applied to the implementation's answer on every case (theorems are about the checker)",
+    "columns of pandas `category` dtype (unobserved categories listed with count 0) and category columns mixing "
+    "int and str values are outside the quantifier and never drawn; only float64 numerical columns are drawn",
+    "timestamp strings with time_format=None are ISO ('%Y-%m-%d %H:%M:%S'); sub-second and tz-aware timestamps are not drawn",
 ]
 
 TOL = Fraction(1, 10 ** 12)
@@ -238,7 +243,7 @@ def rand_time(rng, fmt, near=None):
     y = rng.pick([rng.randint(1700, 2200), rng.randint(1990, 2030), 2000, 2001])
     m = rng.randint(1, 12)
     d = rng.randint(1, calendar.monthrange(y, m)[1])
-    if fmt in ("%Y-%m-%d %H:%M:%S", "datetime64", None):
+    if fmt in ("%Y-%m-%d %H:%M:%S", "%d/%m/%Y %H:%M:%S", "datetime64", None):
         hh, mm, ss = rng.randint(0, 23), rng.randint(0, 59), rng.randint(0, 59)
     else:
         hh = mm = ss = 0
@@ -270,6 +275,8 @@ def gen_time_col(rng, name, n):
         cells = [rng.pick([None, "garbage"]) if can_garbage else None for _ in range(n)]
         cells[rng.randrange(n)] = rand_time(rng, fmt)
     col["cells"] = cells
+    if fmt not in (None, "datetime64"):
+        col["dtype"] = rng.pick(["object", "str"])
     if fmt == "datetime64":
         col["dtype"] = "datetime64"
     col["gen"] = shape
@@ -389,6 +396,9 @@ def run(case):
         out.update(stage="materialize", exc=C.exc_name(ex), msg=str(ex)[:300], tb=C.fmt_exc())
         return out
     out.update(ok=True, stats=G.read_stats(ds.col_stats), tf=G.read_tf(ds.tensor_frame))
+    emb = ds.tensor_frame.feat_dict.get(torch_frame.embedding)
+    if emb is not None:
+        out["emb_offset"] = [int(x) for x in emb.offset.tolist()]
     return out
 
 
@@ -708,6 +718,45 @@ def stats(cases, obss):
     return d
 
 
+def sanity(cases, obss):
+    """Fail-closed distribution check: every column kind and every distinction the property quantifies over is drawn."""
+    d = stats(cases, obss)
+    probs = []
+    if d["total"] and d["raised"] > 0.2 * d["total"]:
+        probs.append(f"{d['raised']} of {d['total']} frames failed to materialize")
+    for st in ("numerical", "categorical", "multicategorical", "sequence_numerical", "timestamp", "embedding",
+               "text_embedded", "image_embedded"):
+        if d["columns"].get(st, 0) == 0:
+            probs.append(f"stype {st} never drawn")
+    kinds = d["gen_kinds"]
+    need = ["numerical/single", "numerical/allmissing", "numerical/onlyinf", "sequence_numerical/allempty",
+            "sequence_numerical/allnan", "sequence_numerical/allmissing", "timestamp/allmissing", "timestamp/single"]
+    for k in need:
+        if kinds.get(k, 0) == 0:
+            probs.append(f"column kind {k} never drawn")
+    for pre in ("categorical/allmissing", "multicategorical/allmissing", "multicategorical/allempty", "categorical/single"):
+        if not any(k.startswith(pre) for k in kinds):
+            probs.append(f"column kind {pre} never drawn")
+    for k in ("tied_count_columns", "no_usable_value_columns", "even_n", "odd_n"):
+        if d[k] == 0:
+            probs.append(f"{k} = 0")
+    for k in ("binary", "multi", "num", "none"):
+        if d["targets"][k] == 0:
+            probs.append(f"target kind {k} never drawn")
+    # two-class targets whose frequency order differs from the sorted order
+    swapped = 0
+    for c in cases:
+        if c is None or c["target"] is None:
+            continue
+        col = next(x for x in c["cols"] if x["name"] == c["target"])
+        if col["stype"] == "categorical" and len(set(col["cells"])) == 2:
+            a, b = sorted(set(col["cells"]))
+            swapped += int(col["cells"].count(b) > col["cells"].count(a))
+    if swapped == 0:
+        probs.append("no two-class target whose frequency order differs from its sorted order")
+    return probs
+
+
 # ------------------------------------------------------------------ Coq side
 def cq(x):
     """exact rational of a dyadic float as a Coq Q literal"""
@@ -761,8 +810,9 @@ def split_tokens(cell, sep):
     return [t.strip() for t in cell.split(sep)]
 
 
-def coq_col(case, obs, col):
-    """(column literal, observation literal) or None when the observation has an unexpected shape."""
+def coq_col(case, obs, col, extra):
+    """(column literal, observation literal) or None when the observation has an unexpected shape;
+    additional boolean terms are appended to `extra`."""
     s = col["stype"]
     st = obs["stats"][col["name"]]
     is_t = col["name"] == case["target"]
@@ -796,6 +846,12 @@ def coq_col(case, obs, col):
             return None
         o = "OCount " + C.clist(list(zip(cats, counts)), lambda p: f"({C.cz(rk[p[0]])}, {C.cnat(p[1])})") + " " + \
             C.clist(tfc, lambda cell: C.clist(sorted(cell), C.cz))
+        if s == "categorical" and is_t:
+            # a frequency order of the raw cells (built here), re-sorted by the model, must be the statistics
+            vals = cat_values(col)
+            freq = sorted(set(vals), key=lambda v: (-vals.count(v), vals.index(v)))
+            extra.append("target_resort_ok " + C.clist(freq, lambda v: f"({C.cz(rk[v])}, {C.cnat(vals.count(v))})") + " " +
+                         C.clist(list(zip(cats, counts)), lambda p: f"({C.cz(rk[p[0]])}, {C.cnat(p[1])})"))
         if s == "categorical":
             c = f"CCat {C.cbool(is_t)} " + C.clist(col["cells"], lambda v: C.copt(v, lambda x: C.cz(rk[x])))
         else:
@@ -830,7 +886,7 @@ def coq_term(case, obs):
         return None
     terms = []
     for col in case["cols"]:
-        r = coq_col(case, obs, col)
+        r = coq_col(case, obs, col, terms)
         if r is None:
             return "false"
         terms.append(f"col_stats_ok ({r[0]}) ({r[1]})")
@@ -842,5 +898,6 @@ def coq_term(case, obs):
             dims = [obs["stats"][nm].get("EMB_DIM") for nm in emb]
             if any(not isinstance(x, int) for x in dims):
                 return "false"
-            terms.append(f"update_col_stats_ok {C.clist(widths, C.cnat)} {C.clist(dims, C.cz)}")
+            terms.append(f"update_col_stats_ok {C.clist(obs.get('emb_offset', []), C.cnat)} "
+                         f"{C.clist(widths, C.cnat)} {C.clist(dims, C.cz)}")
     return "(" + " && ".join(terms) + ")"
